@@ -17,12 +17,14 @@ func init() {
 			ID: "C23", Title: "The session state machine refines the RFC 4271 FSM model", Level: "other",
 			Technique:   "transition extraction from the typed AST (state type × constructor of the returned state) checked for inclusion in the RFC 4271 §8.2.2 relation; typestate coupling rules by must-pass-through on go/cfg and who-may-call",
 			DesignRef:   "DESIGN.md §4 C23",
-			Decided:     "(1) the transition relation extracted from every `return newXState(...)` of the seven state types is included in the RFC 4271 §8.2.2 relation frozen in engine/props/c23.go (for a memoryless state graph edge inclusion is trace inclusion), and every state has its run method; (2) coupling: routes are attached only in Established — fsmAddressFamily.init is called only from establishedState.init, ribsInitialized is set only there (and in the BMP pseudo-FSM literal), every exit from Established passes uninit (C07); UPDATEs are processed only in Established — processUpdate is called only from establishedState.update, which is called only from establishedState.msgReceived; every return to Idle from OpenSent, OpenConfirm or Established passes con.Close() on every path (BMP exempt); (3) stateName's type switch covers the seven state types.",
-			NotDecided:  "timer values and event fairness; that each transition is taken on the right event (only the relation is checked); BMP pseudo-FSMs are constructed directly in Established and are exempt from (1).",
+			Decided:     "(0) in the msgReceived of OpenSent, OpenConfirm and Established the handler of a message type (OPEN, KEEPALIVE, UPDATE, NOTIFICATION) is called only where the header type is established to be exactly that type — never from a default clause; (1) the transition relation extracted from every `return newXState(...)` of the seven state types is included in the RFC 4271 §8.2.2 relation frozen in engine/props/c23.go (for a memoryless state graph edge inclusion is trace inclusion), and every state has its run method; (2) coupling: routes are attached only in Established — fsmAddressFamily.init is called only from establishedState.init, ribsInitialized is set only there (and in the BMP pseudo-FSM literal), every exit from Established passes uninit (C07); UPDATEs are processed only in Established — processUpdate is called only from establishedState.update, which is called only from establishedState.msgReceived; every return to Idle from OpenSent, OpenConfirm or Established passes con.Close() on every path (BMP exempt); (3) stateName's type switch covers the seven state types.",
+			NotDecided:  "timer values and event fairness; that each transition is taken on the right event beyond the message-type dispatch of rule (0); BMP pseudo-FSMs are constructed directly in Established and are exempt from (1).",
 			TrustedBase: append([]string{"the RFC 4271 §8.2.2 relation transcribed in engine/props/c23.go"}, stdTrusted...),
 		},
 		Run: runC23,
 		Controls: []Control{
+			{Name: "openconfirm-anything-is-a-keepalive", File: "protocols/bgp/server/fsm_open_confirm.go", Old: "\tcase packet.KeepaliveMsg:\n\t\treturn s.keepaliveReceived()\n\tdefault:\n\t\treturn s.unexpectedMessage()\n", New: "\tcase packet.OpenMsg:\n\t\treturn s.unexpectedMessage()\n\tdefault:\n\t\treturn s.keepaliveReceived()\n", Expect: "transition-tied-to-message-type"},
+			{Name: "refactor-dispatch-by-if", Silent: true, File: "protocols/bgp/server/fsm_open_confirm.go", Old: "\tswitch msg.Header.Type {\n\tcase packet.NotificationMsg:\n\t\treturn s.notification(msg)\n\tcase packet.KeepaliveMsg:\n\t\treturn s.keepaliveReceived()\n\tdefault:\n\t\treturn s.unexpectedMessage()\n\t}\n", New: "\tif msg.Header.Type == packet.NotificationMsg {\n\t\treturn s.notification(msg)\n\t}\n\tif msg.Header.Type != packet.KeepaliveMsg {\n\t\treturn s.unexpectedMessage()\n\t}\n\treturn s.keepaliveReceived()\n"},
 			{Name: "openconfirm-skips-to-openSent", File: "protocols/bgp/server/fsm_open_confirm.go", Old: "return newEstablishedState(s.fsm), \"Received KEEPALIVE\"", New: "return newConnectState(s.fsm), \"Received KEEPALIVE\"", Expect: "transition-in-rfc-relation"},
 			{Name: "idle-return-without-close", File: "protocols/bgp/server/fsm_open_confirm.go", Old: "\ts.fsm.sendNotification(packet.HoldTimeExpired, 0)\n\tstopTimer(s.fsm.connectRetryTimer)\n\ts.fsm.con.Close()\n", New: "\ts.fsm.sendNotification(packet.HoldTimeExpired, 0)\n\tstopTimer(s.fsm.connectRetryTimer)\n", Expect: "idle-return-closes-connection"},
 			{Name: "update-processed-in-openconfirm", File: "protocols/bgp/server/fsm_open_confirm.go", Old: "func (s *openConfirmState) keepaliveReceived() (state, string) {\n", New: "func (s *openConfirmState) keepaliveReceived() (state, string) {\n\tif s.fsm.ipv4Unicast != nil && s.fsm.ribsInitialized {\n\t\ts.fsm.ipv4Unicast.processUpdate(nil, false, 0)\n\t}\n", Expect: "update-only-in-established"},
@@ -42,6 +44,7 @@ var rfcRelation = map[string][]string{
 
 func runC23(c *core.Ctx) {
 	p := c.P
+	messageDispatch(c)
 	rets := fsmReturns(c)
 	allowed := func(from, to string) bool {
 		for _, t := range rfcRelation[from] {
